@@ -28,7 +28,15 @@ impl Manager {
         let interrupt_call_names = {
             let mut cfg = Cfg::new(nodes.clone())?;
             NodeDirectionPass::run(&mut cfg)?;
-            AvailableValuePass::run(&mut cfg)?;
+            // The address written to the vector is looked up in the value
+            // facts: they have to be computed without the edges that leave
+            // an exit ecall, as in stage 2.
+            loop {
+                AvailableValuePass::run(&mut cfg)?;
+                if !EcallTerminationPass::terminate(&mut cfg) {
+                    break;
+                }
+            }
             cfg.get_names_of_interrupt_handler_functions()
         };
 
